@@ -170,22 +170,26 @@ def combineTwoCore (a b : Nat) (S : FS) : FS :=
     folded := Gen.c2PropagatesFolded && S.folded
     labels := S.labels.map (Gen.c2NewIds a b) }
 
-/-- `Spectrum.combine_two_pops([p, q])`, populations numbered from 1 -/
+/-- `Spectrum.combine_two_pops([p, q])`, populations numbered from 1, in the order the caller lists them; the pair the list
+    programs work with is GENERATED from the normalisation statement `tocombine = sorted([_-1 for _ in tocombine])` -/
 def combineTwo (p q : Nat) (S : FS) : Option FS :=
   if p = 0 ∨ q = 0 ∨ p = q ∨ S.ndim < p ∨ S.ndim < q then none
-  else some (combineTwoCore (min p q - 1) (max p q - 1) S)
+  else some (combineTwoCore (Gen.c2Pair p q).1 (Gen.c2Pair p q).2 S)
 
-/-- `Spectrum.combine_pops(tocombine)`, populations numbered from 1 -/
+/-- `Spectrum.combine_pops(tocombine)`, populations numbered from 1, in the order the caller lists them.  The processing order
+    (`Gen.cpOrder`, from `tocombine = sorted(tocombine)`), the chain of pairs handed to `combine_two_pops` (`Gen.cpPairs`) and the
+    label fix-up (`Gen.cpLabelSlot`, `Gen.cpLabelSrc`, `Gen.cpLabelSep`) are GENERATED from the statements of the source. -/
 def combinePops (tc : List Nat) (S : FS) : Option FS :=
-  match sortAsc tc with
-  | [] => none
-  | t0 :: rest =>
-    if (t0 :: rest).any (fun t => decide (t = 0 ∨ S.ndim < t)) || !(decide (t0 :: rest).Nodup) then none
-    else
-      let res := rest.reverse.foldl (fun acc r => combineTwoCore (t0 - 1) (r - 1) acc) S
-      some { res with labels := match S.labels, res.labels with
-                                 | some l, some l' => some (l'.set (t0 - 1) ("+".intercalate ((t0 :: rest).map fun t => l.getD (t - 1) "")))
-                                 | _, _ => res.labels }
+  let t := Gen.cpOrder sortAsc tc
+  if t.isEmpty || t.any (fun x => decide (x = 0 ∨ S.ndim < x)) || !(decide t.Nodup) then none
+  else
+    let res := (Gen.cpPairs sortAsc t).foldl
+      (fun acc pr => combineTwoCore (Gen.c2Pair pr.1 pr.2).1 (Gen.c2Pair pr.1 pr.2).2 acc) S
+    some { res with labels := match S.labels, res.labels with
+                               | some l, some l' =>
+                                 some (l'.set (Gen.cpLabelSlot t)
+                                   (Gen.cpLabelSep.intercalate ((Gen.cpLabelSrc sortAsc t).map fun x => l.getD (x - 1) "")))
+                               | _, _ => res.labels }
 
 /-! ### reorder_pops -/
 
@@ -276,6 +280,41 @@ def project (ms : List Nat) (S : FS) : Option FS :=
     let out := projectCore ms S0
     let out := { out with folded := false, labels := S.labels }
     some (if S.folded then foldCore out else out)
+
+/-! ### closed forms for projecting a MERGED population and a SCRAMBLED spectrum (round 5; the theorems
+       `C10_project_merged_mixture`, `C10_project_scramble` say that the loops above produce them) -/
+
+/-- "project population a to `ma` and population b to `mb`, then merge them" -/
+def splitTerm (a b ma mb : Nat) (S : FS) : FS := combineTwoCore a b (projectAxis b mb (projectAxis a ma S))
+
+/-- probability that `ma` of the `M` chromosomes drawn from the pool of `na + nb` come from population a:
+    C(na,ma)·C(nb,M−ma)/C(na+nb,M) -/
+def splitW (na nb M ma : Nat) : Rat :=
+  ((chooseN na ma * chooseN nb (M - ma) : Nat) : Rat) / ((chooseN (na + nb) M : Nat) : Rat)
+
+/-- the hypergeometric mixture over the splits `M = ma + (M − ma)` of `splitTerm`; a fresh unfolded Spectrum with the corners masked -/
+def mixSplit (a b M : Nat) (S : FS) : FS :=
+  let na := S.shape.getD a 0 - 1
+  let nb := S.shape.getD b 0 - 1
+  let sh' := (mergeShape a b S.shape).set a (M + 1)
+  { shape := sh'
+    dat := fun j => ((List.range (M + 1)).map fun ma => splitW na nb M ma * (splitTerm a b ma (M - ma) S).dat j).sum
+    msk := isCorner sh'
+    folded := false
+    labels := none }
+
+/-- the pooled one-dimensional spectrum (`pooled` in `scramble_pop_ids`) as a spectrum -/
+def poolFS (S : FS) : FS :=
+  { shape := [nTotal S.shape + 1], dat := fun i => pool S (i.getD 0 0), msk := fun _ => false, folded := false, labels := none }
+
+/-- re-deal (sizes `ms`) of the pooled spectrum projected to `Σ ms` -/
+def redealProj (mc : Bool) (ms : List Nat) (S : FS) : FS :=
+  let sh' := ms.map (· + 1)
+  { shape := sh'
+    dat := fun c => hypW ms c * (projectAxis 0 ms.sum (poolFS S)).dat [c.sum]
+    msk := fun c => mc && isCorner sh' c
+    folded := false
+    labels := none }
 
 /-! ### Misc.combine_pops (older 2-D / 3-D routine), interpreted from the GENERATED dispatch table -/
 
